@@ -84,7 +84,7 @@ func VerifRun_C08e() {
 		fi := verifConcretize(verifRange("file", 0, 1))
 		f := files[fi]
 		uri := lsp.DocumentURI("file://" + f)
-		switch verifConcretize(verifRange("op", 0, 2)) {
+		switch verifConcretize(verifRange("op", 0, 3)) {
 		case 0: // the user types: full-text didChange to another version (may be syntactically broken)
 			var txt string
 			if fi == 0 {
@@ -111,13 +111,19 @@ func VerifRun_C08e() {
 			}
 			var txt string
 			if fi == 0 {
-				txt = versA[verifConcretize(verifRange("ver", 0, 1))]
+				txt = versA[verifConcretize(verifRange("ver", 0, 2))]
 			} else {
 				txt = versB[verifConcretize(verifRange("ver", 0, 2))]
 			}
 			cur[fi] = txt
 			verifVFSPut(f, []byte(txt))
 			_ = l.WorkspaceChangeWatchedFiles(ctx, lsp.DidChangeWatchedFilesParams{Changes: []lsp.FileEvent{{URI: uri, Type: lsp.Changed}}})
+		case 3: // the user closes the (saved) document and opens it again
+			if unsaved[fi] {
+				verifAssume(false)
+			}
+			_ = l.TextDocumentDidClose(ctx, lsp.DidCloseTextDocumentParams{TextDocument: lsp.TextDocumentIdentifier{URI: uri}})
+			_ = l.TextDocumentDidOpen(ctx, lsp.DidOpenTextDocumentParams{TextDocument: lsp.TextDocumentItem{URI: uri, Text: cur[fi]}})
 		}
 	}
 	// bring the workspace to a state without unsaved edits
